@@ -48,6 +48,12 @@ class EcoreUtils(object):
         return previous
 
 
+def _stands_for(value, obj):
+    # a reference may hold an object through a (resolved) proxy
+    return value is obj or (value is not None and
+                            getattr(value, '_wrapped', None) is obj)
+
+
 class PyEcoreValue(object):
     def __init__(self, owner, efeature):
         super().__init__()
@@ -140,7 +146,7 @@ class EValue(PyEcoreValue):
             if eOpposite.many:
                 if owner in opposite:
                     opposite.remove(owner, update_opposite=False)
-            elif opposite is owner:
+            elif _stands_for(opposite, owner):
                 previous_value.__dict__[opposite_name] \
                               ._set(None, update_opposite=False)
         if value is None:
@@ -194,8 +200,10 @@ class ECollection(PyEcoreValue):
                 owner._inverse_rels.add(couple)
             return
 
-        if isinstance(owner, EProxy) and not owner.resolved:
-            # see EValue._set: an unresolved proxy keeps its own end
+        if not remove and isinstance(owner, EProxy) and not owner.resolved:
+            # see EValue._set: an unresolved proxy keeps its own end (a
+            # removal still has to release it: the other resource may be
+            # loaded and point back through another proxy)
             return
         opposite_name = eOpposite._name
         opposite = owner.__getattribute__(opposite_name)  # Force load
@@ -205,7 +213,7 @@ class ECollection(PyEcoreValue):
             elif new_value in opposite:
                 opposite.remove(new_value, False)
         elif remove:
-            if opposite is new_value:
+            if _stands_for(opposite, new_value):
                 owner.__dict__[opposite_name] \
                      ._set(None, update_opposite=False)
         else:
